@@ -365,7 +365,10 @@ def get_field_types(type_: type[DataclassInstance]) -> dict[Field, Any]:
 
     for field in fields(type_):
         f_type = field.type
-        if isinstance(f_type, str):
+        if f_type is None:
+            # A literal `None` annotation means NoneType (as get_type_hints would resolve it)
+            f_type = type(None)
+        elif isinstance(f_type, str):
             f_type = get_type_hints(type_).get(field.name)
 
         if f_type is None:
